@@ -8,7 +8,8 @@ operation the partition induced by all `test` answers, every `test`/`explain` re
 every partition (soundness and completeness), explanations (labels are merged equations and the
 equality follows from the labels alone), order independence over permutations; (4) the HOL wrapper
 `CongClosureHOL` on typed curried terms: `test` against the naive closure on terms and the model,
-`explain` through `theory.check_proof` (conclusion, hypotheses, gaps).
+`explain` through `theory.check_proof` (conclusion, hypotheses, gaps) and, as a ProofTerm tree, against the
+model of `get_proofterm` (PfModel.lean).
 
 Streams: `raw` (operations directly on constants 0..7, adversarial: unknown constants, repeated and
 self-referential equations), `term` (untyped curried terms of depth <= 3 over 8 atoms, flattened as
@@ -706,6 +707,13 @@ class HolEnv:
             t = app(t, self.gen(rng, max(depth - 1, 0) if rng.random() < 0.6 else 0, 0))
         return t
 
+    @staticmethod
+    def pt_flag(rng, p):
+        """The pt= argument of a generated merge: True (assume(s = t)), "sym" (symmetric(assume(t = s))) or False (none)."""
+        if rng.random() < p:
+            return "sym" if rng.random() < 0.15 else True
+        return False
+
     def gen_seq(self, rng):
         n = rng.randint(2, 10)
         depth = rng.choice([1, 2, 2, 3])
@@ -724,9 +732,11 @@ class HolEnv:
                 s = self.gen(rng, depth, 0)
             r = rng.random()
             if r < 0.5:
-                out.append(("merge", s, t, rng.random() < 0.85))       # last: with proof term (assume)
+                out.append(("merge", s, t, self.pt_flag(rng, 0.85)))   # last: with proof term (assume / symmetric(assume) / none)
                 if rng.random() < 0.12:
-                    out.append(("merge", t, s, rng.random() < 0.85))   # the same equation the other way round
+                    out.append(("merge", t, s, self.pt_flag(rng, 0.85)))   # the same equation the other way round
+                if rng.random() < 0.06:
+                    out.append(("merge", s, t, self.pt_flag(rng, 0.5)))    # merged again: pts[(u1, u2)] is overwritten / created late
             elif r < 0.62:
                 out.append(("test", s, t))
             elif r < 0.95:
@@ -783,7 +793,7 @@ class HolEnv:
         tmpl = self.gen_nested(rng, depth, heads1, heads2, leaves)
         t1, t2 = self.variant(rng, tmpl, classes), self.variant(rng, tmpl, classes)
         mode = rng.choice(["pt", "pt", "pt", "none", "mixed"])
-        with_pt = lambda: mode == "pt" or (mode == "mixed" and rng.random() < 0.5)  # noqa
+        with_pt = lambda: (mode == "pt" or (mode == "mixed" and rng.random() < 0.5)) and ("sym" if rng.random() < 0.12 else True)  # noqa
         setup = [("merge", s, t, with_pt()) for s, t in eqs]
         for s, t in eqs:                                   # the mirror image of an equation, too
             if rng.random() < 0.3:
@@ -909,6 +919,7 @@ class Trace(list):
         super().__init__()
         self.tables = []
         self.answers = []
+        self.proofs = []       # per op: None, or for an `explain` the ProofTerm tree / ["err", kind]
 
 
 def term_sexp(t):
@@ -917,6 +928,58 @@ def term_sexp(t):
 
 def sexp_term(x):
     return atom(int(x)) if isinstance(x, str) else app(sexp_term(x[0]), sexp_term(x[1]))
+
+
+def pt_tree(env, pt):
+    """The real ProofTerm returned by CongClosureHOL.explain as a nested list: rule names, shape, leaves."""
+    T = lambda x: term_sexp(env.from_hol(x))  # noqa
+    r = pt.rule
+    if r == "assume":
+        return ["assume", T(pt.args.lhs), T(pt.args.rhs)]
+    if r == "sorry":
+        return ["gap", T(pt.th.prop.lhs), T(pt.th.prop.rhs)]      # wire name of the sorry rule
+    if r == "reflexive":
+        return ["reflexive", T(pt.args)]
+    if r in ("symmetric", "transitive", "combination"):
+        return [r] + [pt_tree(env, q) for q in pt.prevs]
+    return ["other", str(r)]
+
+
+def given_pt_sexp(op):
+    """The proof term the harness passes as pt= to merge(s, t), for the model: flag True -> assume(s = t),
+    "sym" -> symmetric(assume(t = s)) (a proof of s = t from the mirrored hypothesis), False -> none."""
+    flag = op[3] if len(op) > 3 else False
+    S, T = term_sexp(op[1]), term_sexp(op[2])
+    if flag == "sym":
+        return ["symmetric", ["assume", T, S]]
+    if flag:
+        return ["assume", S, T]
+    return "-"
+
+
+def holp_line(hops):
+    out = ["holp"]
+    for h in hops:
+        if h[0] == "merge":
+            out.append(["merge", term_sexp(h[1]), term_sexp(h[2]), given_pt_sexp(h)])
+        elif h[0] == "addterm":
+            out.append(["add", term_sexp(h[1])])
+        else:
+            out.append([h[0], term_sexp(h[1]), term_sexp(h[2])])
+    return sexp.dumps(out)
+
+
+def norm_tree(x):
+    return [norm_tree(y) for y in x] if isinstance(x, (list, tuple)) else str(x)
+
+
+def tree_rules(x, acc):
+    if isinstance(x, list) and x and isinstance(x[0], str) and x[0] in ("assume", "gap", "reflexive", "symmetric", "transitive", "combination"):
+        acc.add(x[0])
+        if x[0] in ("symmetric", "transitive", "combination"):
+            for y in x[1:]:
+                tree_rules(y, acc)
+    return acc
 
 
 def wrapper_table(env, cl):
@@ -938,11 +1001,13 @@ def run_hol(ctx, env, congc, hops, limit=60):
     cl = congc.CongClosureHOL()
     fl = Flattener()
     merged, sorried = [], []
+    given_hyps = set()
     parts = Trace()
     H = env.to_hol
     with time_limit(limit):
         for i, op in enumerate(hops):
             kind = op[0]
+            proof_here = None
             fl.high(op[:3])
             universe = list(fl.index)
             _, nv = naive_terms(merged + ([(op[1], op[2])] if kind == "merge" else []), universe)
@@ -953,8 +1018,14 @@ def run_hol(ctx, env, congc, hops, limit=60):
                     cl.add_term(H(op[1]))
                 elif kind == "merge":
                     s, t = H(op[1]), H(op[2])
-                    if op[3]:
-                        cl.merge(s, t, pt=ProofTerm.assume(Eq(s, t)))
+                    if op[3] == "sym":
+                        gpt = ProofTerm.assume(Eq(t, s)).symmetric()
+                        given_hyps.update(gpt.hyps)
+                        cl.merge(s, t, pt=gpt)
+                    elif op[3]:
+                        gpt = ProofTerm.assume(Eq(s, t))
+                        given_hyps.update(gpt.hyps)
+                        cl.merge(s, t, pt=gpt)
                     else:
                         cl.merge(s, t)
                         sorried.append((op[1], op[2]))
@@ -975,19 +1046,22 @@ def run_hol(ctx, env, congc, hops, limit=60):
                         if want:
                             return ("hol-explain-fails", i, "explain(%s, %s) raised AssertionError although the equality holds" % (term_str(op[1]), term_str(op[2]))), parts
                         pt = None
+                        proof_here = ["err", "assert"]
                     if pt is not None:
+                        proof_here = pt_tree(env, pt)
                         rpt = ProofReport()
                         th = theory.check_proof(pt.export(), rpt)
-                        hyps_ok = set(th.hyps) <= {Eq(H(a), H(b)) for a, b in merged}
+                        hyps_ok = set(th.hyps) <= given_hyps        # only hypotheses of proof terms given to merge
                         gaps_ok = all(g.hyps == () and g.prop in {Eq(H(a), H(b)) for a, b in sorried} for g in rpt.gaps)
                         if th.prop != Eq(s, t):
                             return ("hol-explain-wrong-conclusion", i, "explain(%s, %s) proves %s" % (term_str(op[1]), term_str(op[2]), th)), parts
                         if not hyps_ok:
-                            return ("hol-explain-foreign-hyp", i, "explain(%s, %s) proves %s with hypotheses outside the merged equations" % (term_str(op[1]), term_str(op[2]), th)), parts
+                            return ("hol-explain-foreign-hyp", i, "explain(%s, %s) proves %s with hypotheses that are not hypotheses of the proof terms given to merge" % (term_str(op[1]), term_str(op[2]), th)), parts
                         if not gaps_ok:
                             return ("hol-explain-foreign-gap", i, "explain(%s, %s): proof has gaps %s that are not merged equations" % (term_str(op[1]), term_str(op[2]), [str(g) for g in rpt.gaps])), parts
                         # the used hypotheses/gaps alone must entail the equality
-                        used = [(a, b) for a, b in merged if Eq(H(a), H(b)) in set(th.hyps) | {g.prop for g in rpt.gaps}]
+                        leaves = set(th.hyps) | {g.prop for g in rpt.gaps}
+                        used = [(a, b) for a, b in merged if Eq(H(a), H(b)) in leaves or Eq(H(b), H(a)) in leaves]
                         ufl, unv = naive_terms(used, universe)
                         if not unv.eq(ufl.index[op[1]], ufl.index[op[2]]):
                             return ("hol-explain-insufficient", i, "hypotheses of %s do not entail it" % th), parts
@@ -1005,6 +1079,7 @@ def run_hol(ctx, env, congc, hops, limit=60):
             if part != want_part:
                 return ("hol-partition", i, "after op %d the classes %s differ from the congruence closure %s" % (i, part, want_part)), parts
             parts.append(part)
+            parts.proofs.append(proof_here)
             parts.tables.append(wrapper_table(env, cl))
             if len(parts.answers) < len(parts):
                 parts.answers.append(None)
@@ -1041,6 +1116,7 @@ def report_hol(ctx, env, congc, hops, v, origin=None):
 def check_hol_batch(ctx, env, congc, seqs):
     lines, parts_all = [], []
     hol_lines = {}
+    holp_lines = {}
     for hops in seqs:
         nm = sum(1 for o in hops if o[0] == "merge")
         ctx.case(("hol", tuple(hops)), nontrivial=nm >= 2)
@@ -1064,16 +1140,18 @@ def check_hol_batch(ctx, env, congc, seqs):
         core = [o for o in fl.ops if o[0] in ("add", "mc", "mf")]
         lines.append(ops_line(core))
         hol_lines[len(lines) - 1] = sexp.dumps(["hol"] + [[{"addterm": "add"}.get(h[0], h[0])] + [term_sexp(x) for x in h[1:3]] for h in hops])
+        holp_lines[len(lines) - 1] = holp_line(hops)
         # partitions after each high-level op = model partition after the last core op of its span
         parts_all.append((parts, fl, spans))
     order = sorted(hol_lines)
     ctx.log("hol: implementation side done (%d histories)" % len(seqs))
-    model = ctx.lean_driver(EXE, lines + [hol_lines[i] for i in order]) if lines else []
+    model = ctx.lean_driver(EXE, lines + [hol_lines[i] for i in order] + [holp_lines[i] for i in order]) if lines else []
     ctx.log("hol: model side done")
     if model is None:
         return False
     wmodel = dict(zip(order, model[len(lines):]))
-    ndis = ntab = 0
+    pmodel = dict(zip(order, model[len(lines) + len(order):]))
+    ndis = ntab = npf = 0
     for idx, hops in enumerate(seqs):
         if parts_all[idx] is None:
             continue
@@ -1104,6 +1182,32 @@ def check_hol_batch(ctx, env, congc, seqs):
             ntab += 1
             if ntab <= 3:
                 ctx.broken("correspondence:c17:hol-wrapper", "hops=%s model answered %s" % (hops_json(hops), str(wm)[:100]))
+        # the proof-term assembly (PfModel.lean): the ProofTerm tree of every explain -- rule names, shape, leaves
+        pm = sexp.loads(pmodel[idx]) if idx in pmodel else "bad-op"
+        if isinstance(pm, list) and len(pm) == len(hops):
+            for hi, hop in enumerate(hops):
+                if hop[0] != "explain" or hi >= len(parts.proofs) or parts.proofs[hi] is None:
+                    continue
+                itree, mtree = norm_tree(parts.proofs[hi]), norm_tree(pm[hi])
+                if itree[0] == "err":
+                    same = isinstance(mtree, list) and mtree and mtree[0] == "err"
+                    ctx.count("hol-proofterm:explain-refused")
+                else:
+                    same = itree == mtree
+                    ctx.count("hol-proofterm-compared")
+                    for r in tree_rules(parts.proofs[hi], set()):
+                        ctx.count("hol-proofterm-with:" + r)
+                if not same:
+                    npf += 1
+                    if npf <= 3:
+                        ctx.broken("correspondence:c17:hol-proofterm", "hops=%s explain at op %d: the code built %s, the model %s" %
+                                   (hops_json(hops), hi, sexp.dumps(itree), sexp.dumps(mtree) if isinstance(mtree, list) else mtree))
+                        ctx.coverage["disagreements_checked"] += 1
+                    break
+        else:
+            npf += 1
+            if npf <= 3:
+                ctx.broken("correspondence:c17:hol-proofterm", "hops=%s model answered %s" % (hops_json(hops), str(pm)[:100]))
         m = sexp.loads(model[idx])
         mparts = [parse_model_out(x) for x in m] if isinstance(m, list) else []
         # index of the last mutating core op belonging to each high-level op
@@ -1150,15 +1254,16 @@ def run(ctx):
         "(thorough: all orders when there are <=4) through add_term/test/explain calls interleaved with the merges). Every raw explanation "
         "is also checked for closedness (what CongClosureHOL.explain looks up); a raw sequence on which model and code disagree is lifted "
         "into the wrapper and replayed there. Non-trivial = at least two merges; distinct by the operation list.")
-    proofs_ok = ctx.lean_props(["Holpy.C17.Props"], exes=[EXE])
+    proofs_ok = ctx.lean_props(["Holpy.C17.Props", "Holpy.C17.PropsPf", "Holpy.C17.PropsPf2"], exes=[EXE])
     if ctx.tier == "thorough" and proofs_ok:
-        ctx.lean_check_modules(["Holpy.C17.Props"])
+        ctx.lean_check_modules(["Holpy.C17.Props", "Holpy.C17.PropsPf", "Holpy.C17.PropsPf2"])
     ctx.coverage["trusted_base"] += [
         "correspondence harness harness/props/c17.py (generators, flattening of terms, canonical forms)",
         "naive fixpoint congruence closure in the harness (oracle for the implementation's answers)",
         "kernel checker theory.check_proof for the theorems returned by CongClosureHOL.explain (its soundness is property C01/C02)"]
     ctx.assumptions += [
-        "the Lean model reads dictionaries that cannot miss with a default instead of KeyError",
+        "the Lean core model reads dictionaries that cannot miss with a default instead of KeyError (the proof-term assembly model uses Option reads, proved to hit)",
+        "hol_explain_proof_valid assumes the caller's contract: a proof term given as merge(s, t, pt=q) proves s = t (the harness gives assume(s = t) or symmetric(assume(t = s)))",
         "path_to_root / explain recursion carry fuel in the model (len(proof_forest) steps / len(proof_forest)+1 levels); proof_forest_wellformed and explain_total prove that the bounds are never hit in a reachable state"]
     from prover import congc
     corpus = load_corpus(ctx)
@@ -1281,14 +1386,32 @@ MANIFEST = {
             "by test after every operation, every test/explain result; wrapper -- the internal constant table `index` and every test answer "
             "after every call. The implementation's own answers are judged by a naive fixpoint closure (both directions), explanations by "
             "re-deriving the equality from their labels alone and by closedness, order independence by running permutations; "
-            "CongClosureHOL.explain goes through theory.check_proof (conclusion is exactly the queried equality, hypotheses and gaps are "
-            "merged equations and entail it).",
+            "CongClosureHOL.explain goes through theory.check_proof (conclusion is exactly the queried equality, hypotheses are hypotheses "
+            "of the proof terms given to merge, gaps are merged equations, and together they entail it). "
+            "Proof-term assembly (PfModel.lean, PropsPf.lean): the table pts and get_proofterm of CongClosureHOL.explain are modelled "
+            "statement by statement over an inductive proof system EqPf (assume / sorry / reflexive / symmetric / transitive / combination) "
+            "with the checker EqPf.concl (Thm.symmetric / transitive / combination without types) and ProofTerm.transitive's two reflexive "
+            "short cuts; all dictionary reads of the assembly (index, pts, the explain dictionary) are Option reads. hol_explain_proof_valid: "
+            "for every history of merge (with or without pt=) / add_term / test / explain calls in which every given proof term proves its "
+            "equation, whenever the core explain returns, get_proofterm returns (no KeyError, the assert b == cur_pos holds, recursion at most "
+            "len(proof_forest)+1 deep), the tree checks with conclusion exactly l = r, its hypotheses are hypotheses of given proof terms and its "
+            "gaps are merged equations (or gaps of given proof terms). eqpf_checker_sound: a tree that checks derives its conclusion from its "
+            "leaves by reflexivity, symmetry, transitivity and congruence. hol_explain_returns_iff: the wrapper's explain returns a proof term "
+            "exactly when the equality is derivable from the merged term equations (otherwise the core assert fires). hol_pts_irrelevant: pt= arguments never influence index / rev_index / "
+            "the core structure. Tie: for every explain of every generated wrapper history the real ProofTerm tree (rule names, shape, leaf "
+            "equations) is compared with the model's tree (stream hol-proofterm; merges with assume(s = t), symmetric(assume(t = s)) or no "
+            "proof term, mirrored and repeated merges so that pts entries are overwritten or created late).",
     "note": "Trusted: Lean kernel, propext/Classical.choice/Quot.sound, the harness generators/flattener/naive closure, theory.check_proof for "
-            "the HOL wrapper's theorems. Not proved in Lean: that dictionary reads inside merge cannot raise KeyError (the model uses "
-            "defaults; a KeyError in the code shows up as a disagreement and as a failed merge). Not modelled: the proof-term assembly of "
-            "CongClosureHOL.explain (get_proofterm, the table pts) -- judged by the real checker on every generated history; abstractions "
-            "and bound variables in add_term; ematch (outside the property). HolModel carries a ghost log of the core calls (not in the Python) "
-            "to connect the wrapper to the core theorems.",
+            "the HOL wrapper's theorems (the Lean checker EqPf.concl is untyped: combination's test that the function has a function type "
+            "whose domain is the argument's type is not modelled; the real checker is still run on every explain). Not proved in Lean: that "
+            "dictionary reads inside merge / _propagate / the core explain cannot raise KeyError with partial maps (the core model uses "
+            "defaults; a KeyError in the code shows up as a disagreement and as a failed merge) -- only the reads of the proof-term assembly "
+            "are modelled as partial and proved to hit. Not modelled: abstractions and bound variables in add_term (as written the code "
+            "enters an abstraction as an atomic constant after entering its body, answers None for a loose bound variable and for an "
+            "application containing one -- merge then fails with TypeError, test with AssertionError; no congruence under binders: after "
+            "merge(a, b), test(%x. f a, %x. f b) is False; observed on the real code, outside the property's quantifier, no theorem, no "
+            "correspondence stream); ematch (outside the property). HolModel carries a ghost log of the core "
+            "calls (not in the Python) to connect the wrapper to the core theorems.",
     "design_ref": "DESIGN.md 4/C17",
 }
 FINDINGS = [
